@@ -27,6 +27,7 @@ type zzTr struct {
 	readErr   bool // handshake / reads fail
 	closed    int
 	gate      chan struct{} // when set: Write accepts the bytes, then waits here before returning
+	closeErr  error         // what CloseWithStatus reports (the connection is released all the same)
 	entered   chan struct{}
 }
 
@@ -75,7 +76,7 @@ func (t *zzTr) CloseWithStatus(transport.CloseStatus) error {
 	if t.closed == 1 {
 		close(t.in)
 	}
-	return nil
+	return t.closeErr
 }
 func (t *zzTr) RxBytesCounterValue() uint64                         { return 0 }
 func (t *zzTr) TxBytesCounterValue() uint64                         { return 0 }
@@ -405,3 +406,49 @@ func zzC18eWriteOverlapsRedial() {
 }
 
 func zzC18eWriteOverlapsRedialDev1() { zzDeviations = 1; zzC18eWriteOverlapsRedial() }
+
+// C18.g: Close when the underlying connection's own close reports an error (the peer had already
+// gone, the close frame could not be written): the connection is released all the same, so the
+// transport is closed - a Read that was pending returns with an error, later Reads and Writes fail
+// instead of blocking.
+func zzC18gCloseReportsError() {
+	vf.Deviations(zzDeviations)
+	d := &zzDialer{handshakeFrom: 1}
+	t, err := Dial(DialConfig{Dialer: d, DialConfig: transport.DialConfig{TransportID: "t"}, MaxReconnectAttempts: 2, ReconnectInterval: time.Millisecond})
+	vf.Assume(err == nil)
+	vf.Settle()
+	first := d.made[0]
+	if vf.Choose("underlying.close.reports.error", 2) == 1 {
+		first.mu.Lock()
+		first.closeErr = zzErr
+		first.mu.Unlock()
+	}
+	pending := vf.Choose("read.pending.at.close", 2) == 1
+	readDone := false
+	var perr error
+	if pending {
+		go func() {
+			_, perr = t.Read()
+			readDone = true
+		}()
+		vf.Settle()
+	}
+	if vf.Choose("written.before.close", 2) == 1 {
+		vf.Assert("healthy-write-accepted", t.Write([]byte{7}) == nil)
+	}
+	t.Close() // (its result may well be the underlying error)
+	vf.Settle()
+	vf.Advance(time.Second)
+	vf.Settle()
+	if pending {
+		vf.Assert("pending-read-fails-after-close", readDone && perr != nil)
+	}
+	var e4 error
+	blockedWrite := vf.Blocked(func() { e4 = t.Write([]byte{1}) })
+	vf.Assert("write-after-close-fails-fast", !blockedWrite && e4 != nil)
+	var e5 error
+	blockedRead := vf.Blocked(func() { _, e5 = t.Read() })
+	vf.Assert("read-after-close-fails-fast", !blockedRead && e5 != nil)
+	vf.Reach("end")
+}
+func zzC18gCloseReportsErrorDev1() { zzDeviations = 1; zzC18gCloseReportsError() }
